@@ -29,7 +29,7 @@ pub trait MToVec { fn mto_vec(&self) -> &Self; }
 impl MToVec for [Byte32] { fn mto_vec(&self) -> &Self { self } }
 // ---- the message --------------------------------------------------------------------------------------------------------------------
 #[derive(Clone, Copy, Default)]
-pub struct Msg { pub last: VerifiableHeader, pub proof_len: u8, pub headers: Vec<HeaderView>, pub missing: Vec<Byte32>, pub extra_fields: usize, pub uncles: Vec<Byte32>, pub exts: Vec<Option<PBytes>> }
+pub struct Msg { pub last: VerifiableHeader, pub proof_len: u8, pub headers: Vec<HeaderView>, pub missing: Vec<Byte32>, pub extra_fields: usize, pub extra_ok: bool, pub uncles: Vec<Byte32>, pub exts: Vec<Option<PBytes>> }
 #[derive(Clone, Copy)] pub struct Ent<T: Copy>(pub T);
 impl<T: Copy> Ent<T> { pub fn to_entity(&self) -> T { self.0 } }
 #[derive(Clone, Copy)] pub struct VhEnt(pub VerifiableHeader);
@@ -63,11 +63,19 @@ pub mod packed {
     }
     pub struct SendBlocksProofV1Reader<'a>(pub &'a Msg);
     impl<'a> SendBlocksProofV1Reader<'a> {
-        /// molecule: reading the two extra fields of a table that has fewer than two is out of bounds
-        pub fn new_unchecked(m: &'a Msg) -> Self { assert!(m.extra_fields >= 2, "REAL-PANIC: SendBlocksProofV1Reader over a table without the two extra fields (slice index out of range)"); SendBlocksProofV1Reader(m) }
+        /// molecule: reading the two extra fields of a table that has fewer than two is out of bounds; and the CONTENTS of extra fields are not verified when the
+        /// message is decoded in compatible mode (`extra_ok` = they happen to be well-formed vectors): reading them through an unchecked reader slices out of range
+        pub fn new_unchecked(m: &'a Msg) -> Self {
+            assert!(m.extra_fields >= 2, "REAL-PANIC: SendBlocksProofV1Reader over a table without the two extra fields (slice index out of range)");
+            assert!(m.extra_ok, "REAL-PANIC: the extra fields of a message decoded in compatible mode are read through an unchecked reader although their contents were never verified (slice index out of range in molecule)");
+            SendBlocksProofV1Reader(m)
+        }
+        /// molecule verification of the V1 table (compatible mode): all six fields present and well-formed
+        pub fn from_compatible_slice(m: &'a Msg) -> Result<Self, VerificationError> { if m.extra_fields >= 2 && m.extra_ok { Ok(SendBlocksProofV1Reader(m)) } else { Err(VerificationError) } }
         pub fn blocks_uncles_hash(&self) -> ListR<Byte32> { ListR(self.0.uncles) }
         pub fn blocks_extension(&self) -> ListR<BytesOpt> { let mut v = Vec::new(); let mut i = 0; while i < self.0.exts.len { v.push(BytesOpt(self.0.exts.buf[i])); i += 1; } ListR(v) }
     }
+    #[derive(Debug)] pub struct VerificationError;
     #[derive(Clone, Copy, Default)] pub struct GetBlocks { pub hashes: Byte32Vec }
     pub struct GetBlocksBuilder(Byte32Vec);
     impl GetBlocks { pub fn new_builder() -> GetBlocksBuilder { GetBlocksBuilder(Byte32Vec::default()) } }
@@ -165,7 +173,7 @@ mod harness {
         while i < 2 { if i < ne { let e: Option<u8> = kani::any(); exts.push(e.map(|x| PBytes::of(1, x & 1, 0))); } i += 1; }
         let extra_fields: usize = kani::any(); kani::assume(extra_fields <= 3);
         let last_id: u8 = kani::any();
-        let msg = Msg { last: VerifiableHeader { header: HeaderView { id: last_id, ..Default::default() }, ..Default::default() }, proof_len: kani::any(), headers, missing, extra_fields, uncles, exts };
+        let msg = Msg { last: VerifiableHeader { header: HeaderView { id: last_id, ..Default::default() }, ..Default::default() }, proof_len: kani::any(), headers, missing, extra_fields, extra_ok: kani::any(), uncles, exts };
         // the peer table, matched blocks, fetch table
         let other_busy: bool = kani::any();
         let mut mb: HashMap<H256, (bool, Option<packed::Block>)> = HashMap::new();
